@@ -235,8 +235,12 @@ D_Same == [c |-> c, lost |-> NoLost, ok |-> TRUE, q |-> 0]
 -----------------------------------------------------------------------------
 (* ACTIONS: ground-truth bookkeeping + the controller's outcome o = [c, lost, ok, q] *)
 \* rearm: the call is one after which the RFC recomputes the loss-detection timer
+\* spread of the send times of the ack-eliciting packets declared lost in this call (persistent congestion, RFC 9002 7.6)
+LostSpan(p, L) ==
+    LET ts == UNION {{p[sp][i].t : i \in {j \in L[sp] \cap DOMAIN p[sp] : p[sp][j].ae}} : sp \in Spaces}
+    IN IF ts = {} THEN 0 ELSE SetMax(ts) - SetMin(ts)
 LastRec(act, sp, o, newly, late, ackedLost, trig, rearm) ==
-    [act |-> act, sp |-> sp, lost |-> o.lost, newly |-> newly, late |-> late, ackedLost |-> ackedLost, trig |-> trig,
+    [act |-> act, sp |-> sp, lost |-> o.lost, span |-> LostSpan(pk, o.lost), newly |-> newly, late |-> late, ackedLost |-> ackedLost, trig |-> trig,
      c0 |-> c, shrinkAt0 |-> shrinkAt, ptoPrev0 |-> ptoPrev, ok |-> o.ok, q |-> o.q, probe0 |-> ProbePending(c), g |-> FALSE, rearm |-> rearm]
 
 \* packets reported lost although they had been acknowledged (statuses p after this call's acknowledgements)
@@ -377,8 +381,11 @@ CwndAtLeastTwoDatagrams == c.cwnd >= 2 * Mtu
 \* "shrinks ... on loss or ECN marks"
 ShrinkOnlyOnLossOrEcn == (Stepped /\ c.cwnd < last.c0.cwnd) => last.trig # {}
 \* "... at most once per round trip": the packet whose loss / mark shrinks the window was sent after the previous shrink
+\* (the collapse on persistent congestion -- losses spanning three probe timeouts -- is the RFC's explicit exception)
+PersistentCongestion == last.span >= 3 * (last.c0.srtt + Max(4 * last.c0.var, Gran) + MaxAckDelay)
 ShrinkAtMostOncePerRtt ==
-    (Stepped /\ c.cwnd < last.c0.cwnd /\ last.trig # {} /\ last.shrinkAt0 # NONE) => (\E t \in last.trig : t > last.shrinkAt0)
+    (Stepped /\ c.cwnd < last.c0.cwnd /\ last.trig # {} /\ last.shrinkAt0 # NONE /\ ~PersistentCongestion)
+    => (\E t \in last.trig : t > last.shrinkAt0)
 \* "grows only on acknowledgements outside recovery": some packet acknowledged by this call was sent after recovery started
 GrowOnlyOnAckOutsideRecovery ==
     (Stepped /\ c.cwnd > last.c0.cwnd) =>
